@@ -27,28 +27,30 @@ import (
 
 // Obs is what the real host did with one item.
 type Obs struct {
-	Reply     []byte              `json:"reply,omitempty"`   // bytes seen on the api topic / returned by the handler
-	HasReply  bool                `json:"has_reply"`         //
-	ErrText   string              `json:"err_text"`          // direct mode: err.Error()
-	IsErr     bool                `json:"is_err"`            // direct mode: err != nil
-	WsReply   []byte              `json:"ws_reply"`          // ws mode: what the websocket client itself read (may be missing)
-	WsSeen    bool                `json:"ws_seen"`           //
-	CtlSeen   bool                `json:"ctl_seen"`          // ctl mode: the reply came back over the control connection itself
-	CtlReply  []byte              `json:"ctl_reply"`         //
-	Fallback  bool                `json:"fallback"`          // ctl mode: no control connection was up (rule re-pointed); sent over the topic instead
-	Resent    bool                `json:"resent"`            // the hub dropped the command before it reached the handler; sent again
-	NoSnap    bool                `json:"no_snap,omitempty"` // (parent, pipelined view) the tables were not read after this command
-	Stuck     bool                `json:"stuck"`             // after this item the rule hubs (rwc/agg loops) did not take a no-op within 3 s
-	NoReply   bool                `json:"no_reply"`          // nothing within the deadline (twice)
-	Exit      bool                `json:"exit"`              // the host process ended while handling this item
-	Status    int                 `json:"status"`            // HTTP
-	Body      []byte              `json:"body,omitempty"`    //
-	CType     string              `json:"ctype,omitempty"`   //
-	HTTPErr   string              `json:"http_err"`          // transport error = no complete response
-	Dests     map[string]rwc.Rule `json:"dests"`             // app.Websocket.Rules afterwards
-	Streams   map[string][]string `json:"streams"`           // app.Hub.Rules afterwards
-	StderrEnd string              `json:"stderr,omitempty"`  // last lines of the child's stderr when it ended
-	APIUsed   string              `json:"api_used,omitempty"`
+	Reply       []byte              `json:"reply,omitempty"`   // bytes seen on the api topic / returned by the handler
+	HasReply    bool                `json:"has_reply"`         //
+	ErrText     string              `json:"err_text"`          // direct mode: err.Error()
+	IsErr       bool                `json:"is_err"`            // direct mode: err != nil
+	WsReply     []byte              `json:"ws_reply"`          // ws mode: what the websocket client itself read (may be missing)
+	WsSeen      bool                `json:"ws_seen"`           //
+	CtlSeen     bool                `json:"ctl_seen"`          // ctl mode: the reply came back over the control connection itself
+	CtlReply    []byte              `json:"ctl_reply"`         //
+	Fallback    bool                `json:"fallback"`          // ctl mode: no control connection was up (rule re-pointed); sent over the topic instead
+	Resent      bool                `json:"resent"`            // the hub dropped the command before it reached the handler; sent again
+	PipeArrive  bool                `json:"-"`                 // (parent, pipelined) emit as an arrival on the topic: taken and answered (HasReply) or never answered
+	ReadyBefore bool                `json:"-"`                 // (parent, pipelined) the handler was waiting again before this arrival
+	NoSnap      bool                `json:"no_snap,omitempty"` // (parent, pipelined view) the tables were not read after this command
+	Stuck       bool                `json:"stuck"`             // after this item the rule hubs (rwc/agg loops) did not take a no-op within 3 s
+	NoReply     bool                `json:"no_reply"`          // nothing within the deadline (twice)
+	Exit        bool                `json:"exit"`              // the host process ended while handling this item
+	Status      int                 `json:"status"`            // HTTP
+	Body        []byte              `json:"body,omitempty"`    //
+	CType       string              `json:"ctype,omitempty"`   //
+	HTTPErr     string              `json:"http_err"`          // transport error = no complete response
+	Dests       map[string]rwc.Rule `json:"dests"`             // app.Websocket.Rules afterwards
+	Streams     map[string][]string `json:"streams"`           // app.Hub.Rules afterwards
+	StderrEnd   string              `json:"stderr,omitempty"`  // last lines of the child's stderr when it ended
+	APIUsed     string              `json:"api_used,omitempty"`
 	// pipelined session (one observation for the whole session)
 	Topic  []TopicMsg `json:"topic,omitempty"`  // everything seen on the api topic, in hub order: commands and replies
 	Frames [][][]byte `json:"frames,omitempty"` // per controller: the websocket messages it received, in order // ctl mode, first line only: the control destination the child set up
